@@ -4,8 +4,9 @@ import Cadence.Proofs.QueueProps
 /-!
 The executable predicates of `Cadence.Check.Queue` accept every observation list the model produces
 in the quiescent schedule (`Queue.modelRun`): no clause of `ckOp` / `ckEvents` can fail on behaviour
-that conforms to the model.  (The closing clauses `ckClose` hold only for closed histories and are
-not part of this statement.)
+that conforms to the model (`ckOps_accepts_model`).  The closing clauses `ckClose` hold only for closed
+histories; `ckHistory_accepts_closed_model` adds them for histories after which the model has no handle
+left and the worker is not parked inside the wrapped sink (`closedAfter`), for capacities other than 0.
 
 Structure of the proof:
 * `settle_quiescent`: the fuel of `settleAll` always suffices — a measure bounded by
@@ -15,7 +16,11 @@ Structure of the proof:
 * `step_sim`: each step of the quiescent schedule adds at most one event to the trace, and `ckEvents`
   consumes that event into a related checker state.  `settle_sim` iterates it.
 * `modelOp_sim`: one harness operation from a related, quiescent pair is accepted by `ckOp` and ends
-  in a related, quiescent pair.  `go_sim` iterates it over the history.
+  in a related, quiescent pair.  `go_sim` iterates it over the history; `go_final` also reports the
+  final pair, whose model half is `modelFinal`.
+* `Rel.drp` (`c.dropped = s.released`) and `closed_quiescent_done` (a quiescent reachable state without
+  handles, not inside the wrapped sink, `cap ≠ some 0`, has exited, released, and delivered everything:
+  `Inv.noDeadlock` excludes `recv()` on an empty queue after `stop()`) give the closing clauses.
 -/
 namespace Queue
 
@@ -158,6 +163,7 @@ structure Rel (cap : Option Nat) (hh : Bool) (fins : Nat) (s : St M) (c : CkSt) 
   fin : c.finishes = fins
   pan : c.panics = s.panics
   pend : s.pendingIncr = 0
+  drp : c.dropped = s.released
 
 theorem ckEvents_nil (hh : Bool) (eH : Option (Nat × String)) (c : CkSt) : ckEvents hh eH c [] false = .ok c := by
   simp [ckEvents]; rfl
@@ -172,19 +178,19 @@ theorem step_sim {cap hh fins} (kind : Nat) {s s1 : St M} {c : CkSt} {l : Label 
       ∀ eH rest, ckEvents hh eH c (ev1.map (evMap kind) ++ rest) false = ckEvents hh eH c1 rest false := by
   have hreach := Reachable.step hR.reach hs
   have inv := reachable_inv s hR.reach
-  obtain ⟨hr, hacc, hent, hlive, hnext, hins, hfin, hpan, hpend⟩ := hR
+  obtain ⟨hr, hacc, hent, hlive, hnext, hins, hfin, hpan, hpend, hdrp⟩ := hR
   cases l with
   | stopFlag =>
     simp only [step] at hs
     split at hs
     · simp at hs; obtain ⟨rfl, -⟩ := hs
-      exact ⟨[], c, by simp, ⟨hreach, hacc, hent, hlive, hnext, hins, hfin, hpan, hpend⟩, fun _ _ => rfl⟩
+      exact ⟨[], c, by simp, ⟨hreach, hacc, hent, hlive, hnext, hins, hfin, hpan, hpend, hdrp⟩, fun _ _ => rfl⟩
     · simp at hs
   | stopPill =>
     simp only [step] at hs
     split at hs
     · simp at hs; obtain ⟨rfl, -⟩ := hs
-      exact ⟨[], c, by simp, ⟨hreach, hacc, hent, hlive, hnext, hins, hfin, hpan, hpend⟩, fun _ _ => rfl⟩
+      exact ⟨[], c, by simp, ⟨hreach, hacc, hent, hlive, hnext, hins, hfin, hpan, hpend, hdrp⟩, fun _ _ => rfl⟩
     · simp at hs
   | wCheck =>
     simp only [step] at hs
@@ -193,7 +199,7 @@ theorem step_sim {cap hh fins} (kind : Nat) {s s1 : St M} {c : CkSt} {l : Label 
       have hins' : c.inside = false := by rw [hins, hph]; rfl
       split at hs <;>
       · simp at hs; obtain ⟨rfl, -⟩ := hs
-        exact ⟨[], c, by simp, ⟨hreach, hacc, hent, hlive, hnext, hins', hfin, hpan, hpend⟩, fun _ _ => rfl⟩
+        exact ⟨[], c, by simp, ⟨hreach, hacc, hent, hlive, hnext, hins', hfin, hpan, hpend, hdrp⟩, fun _ _ => rfl⟩
     · simp at hs
   | wRecv =>
     simp only [step] at hs
@@ -203,9 +209,9 @@ theorem step_sim {cap hh fins} (kind : Nat) {s s1 : St M} {c : CkSt} {l : Label 
       split at hs
       · simp at hs
       · simp at hs; obtain ⟨rfl, -⟩ := hs
-        exact ⟨[], c, by simp, ⟨hreach, hacc, hent, hlive, hnext, hins', hfin, hpan, hpend⟩, fun _ _ => rfl⟩
+        exact ⟨[], c, by simp, ⟨hreach, hacc, hent, hlive, hnext, hins', hfin, hpan, hpend, hdrp⟩, fun _ _ => rfl⟩
       · simp at hs; obtain ⟨rfl, -⟩ := hs
-        exact ⟨[], c, by simp, ⟨hreach, hacc, hent, hlive, hnext, hins', hfin, hpan, hpend⟩, fun _ _ => rfl⟩
+        exact ⟨[], c, by simp, ⟨hreach, hacc, hent, hlive, hnext, hins', hfin, hpan, hpend, hdrp⟩, fun _ _ => rfl⟩
     · simp at hs
   | wCount =>
     simp only [step] at hs
@@ -217,7 +223,7 @@ theorem step_sim {cap hh fins} (kind : Nat) {s s1 : St M} {c : CkSt} {l : Label 
         exact getElem?_mid _ _ _
       simp at hs; obtain ⟨rfl, -⟩ := hs
       refine ⟨[.enter m], { c with entered := c.entered + 1, inside := true }, rfl,
-        ⟨hreach, hacc, by simp [hent], hlive, hnext, rfl, hfin, hpan, hpend⟩, ?_⟩
+        ⟨hreach, hacc, by simp [hent], hlive, hnext, rfl, hfin, hpan, hpend, hdrp⟩, ?_⟩
       intro eH rest
       simp [evMap, ckEvents, hins', hget]
     · simp at hs
@@ -232,7 +238,7 @@ theorem step_sim {cap hh fins} (kind : Nat) {s s1 : St M} {c : CkSt} {l : Label 
         have hall : s.wrappedLog = s.accepted := exited_all_delivered s hr hph
         simp at hs; obtain ⟨rfl, -⟩ := hs
         refine ⟨[.released], { c with dropped := true }, rfl,
-          ⟨hreach, hacc, hent, hlive, hnext, hins, hfin, hpan, hpend⟩, ?_⟩
+          ⟨hreach, hacc, hent, hlive, hnext, hins, hfin, hpan, hpend, rfl⟩, ?_⟩
         intro eH rest
         have hl0 : c.live = [] := by rw [hlive, h0]
         have hle : ¬ c.entered < c.accepted.length := by rw [hent, hacc, hall]; omega
@@ -310,16 +316,17 @@ theorem workerStep_handles {cap hh} (s s1 : St M) (hr : Reachable cap hh s) (hne
 theorem step_drop_fields {s s1 : St M} {h : Nat} {o : Obs} (hs : step s (.drop h) = some (s1, o)) :
     s1.handles = s.handles.erase h ∧ s1.accepted = s.accepted ∧ s1.wrappedLog = s.wrappedLog ∧
     s1.nextHandle = s.nextHandle ∧ s1.phase = s.phase ∧ s1.panics = s.panics ∧
-    s1.pendingIncr = s.pendingIncr ∧ s1.trace = s.trace := by
+    s1.pendingIncr = s.pendingIncr ∧ s1.trace = s.trace ∧ s1.released = s.released := by
   simp only [step] at hs
   split at hs
-  · split at hs <;> (simp at hs; obtain ⟨rfl, -⟩ := hs; exact ⟨rfl, rfl, rfl, rfl, rfl, rfl, rfl, rfl⟩)
+  · split at hs <;> (simp at hs; obtain ⟨rfl, -⟩ := hs; exact ⟨rfl, rfl, rfl, rfl, rfl, rfl, rfl, rfl, rfl⟩)
   · simp at hs
 
 theorem step_finish_fields {s s1 : St M} {oc : Outcome} {o : Obs} (hs : step s (.wFinish oc) = some (s1, o)) :
     s1.handles = s.handles ∧ s1.accepted = s.accepted ∧ s1.wrappedLog = s.wrappedLog ∧
     s1.nextHandle = s.nextHandle ∧ s1.phase = .check ∧ s1.panics = s.panics + (if isPanic oc then 1 else 0) ∧
-    s1.pendingIncr = s.pendingIncr ∧ s1.trace = s.trace ++ handledPart oc s.hasHandler := by
+    s1.pendingIncr = s.pendingIncr ∧ s1.trace = s.trace ++ handledPart oc s.hasHandler ∧
+    s1.released = s.released := by
   simp only [step] at hs
   split at hs
   · cases oc with
@@ -339,9 +346,9 @@ theorem finish_rel {cap hh fins} {s s1 : St M} {c : CkSt} {oc : Outcome} {o : Ob
     Rel cap hh (fins + 1) s1
       { c with inside := false, finishes := c.finishes + 1, panics := c.panics + (if isPanic oc then 1 else 0) } ∧
     s1.trace = s.trace ++ handledPart oc hh := by
-  obtain ⟨f1, f2, f3, f4, f5, f6, f7, f8⟩ := step_finish_fields hs
+  obtain ⟨f1, f2, f3, f4, f5, f6, f7, f8, f9⟩ := step_finish_fields hs
   have hcfg := reachable_cfg s hR.reach
-  refine ⟨⟨Reachable.step hR.reach hs, ?_, ?_, ?_, ?_, ?_, ?_, ?_, ?_⟩, by rw [f8, hcfg.2]⟩
+  refine ⟨⟨Reachable.step hR.reach hs, ?_, ?_, ?_, ?_, ?_, ?_, ?_, ?_, ?_⟩, by rw [f8, hcfg.2]⟩
   · rw [f2]; exact hR.acc
   · rw [f3]; exact hR.ent
   · rw [f1]; exact hR.live
@@ -351,15 +358,16 @@ theorem finish_rel {cap hh fins} {s s1 : St M} {c : CkSt} {oc : Outcome} {o : Ob
     rw [hR.fin]
   · rw [f6]; show c.panics + _ = _; rw [hR.pan]
   · rw [f7]; exact hR.pend
+  · rw [f9]; exact hR.drp
 
 theorem emit_ok_steps (s : St M) (h : Nat) (m : M) (hmem : h ∈ s.handles) (hroom : room s = true) :
     ∃ s1 s2, step s (.emitTry h m) = some (s1, .emitOk) ∧ step s1 .emitCount = some (s2, .none) ∧
       s2.handles = s.handles ∧ s2.accepted = s.accepted ++ [m] ∧ s2.wrappedLog = s.wrappedLog ∧
       s2.nextHandle = s.nextHandle ∧ s2.phase = s.phase ∧ s2.panics = s.panics ∧
-      s2.pendingIncr = s.pendingIncr ∧ s2.trace = s.trace := by
+      s2.pendingIncr = s.pendingIncr ∧ s2.trace = s.trace ∧ s2.released = s.released := by
   refine ⟨{ s with chan := s.chan ++ [some m], accepted := s.accepted ++ [m], pendingIncr := s.pendingIncr + 1 },
     { s with chan := s.chan ++ [some m], accepted := s.accepted ++ [m], pendingIncr := s.pendingIncr + 1 - 1,
-             submitted := s.submitted + 1 }, ?_, ?_, rfl, rfl, rfl, rfl, rfl, rfl, ?_, rfl⟩
+             submitted := s.submitted + 1 }, ?_, ?_, rfl, rfl, rfl, rfl, rfl, rfl, ?_, rfl, rfl⟩
   · rw [emit_result s h m hmem, if_pos hroom]
   · simp [step]
   · show s.pendingIncr + 1 - 1 = s.pendingIncr
@@ -378,11 +386,12 @@ theorem modelOp_sim {cap hh fins} {s : St M} {c : CkSt} (hR : Rel cap hh fins s 
       have hwait := waiting_eq hR hq (mem_ne_nil hmem)
       cases hroom : room s with
       | true =>
-        obtain ⟨s1, s2, hs1, hs2, f1, f2, f3, f4, f5, f6, f7, f8⟩ := emit_ok_steps s h m hmem hroom
+        obtain ⟨s1, s2, hs1, hs2, f1, f2, f3, f4, f5, f6, f7, f8, f9⟩ := emit_ok_steps s h m hmem hroom
         have hR2 : Rel cap hh fins s2 { c with accepted := c.accepted ++ [m] } :=
           ⟨Reachable.step (Reachable.step hR.reach hs1) hs2, by rw [f2]; show c.accepted ++ [m] = _; rw [hR.acc],
             by rw [f3]; exact hR.ent, by rw [f1]; exact hR.live, by rw [f4]; exact hR.next,
-            by rw [f5]; exact hR.inside, hR.fin, by rw [f6]; exact hR.pan, by rw [f7]; exact hR.pend⟩
+            by rw [f5]; exact hR.inside, hR.fin, by rw [f6]; exact hR.pan, by rw [f7]; exact hR.pend,
+            by rw [f9]; exact hR.drp⟩
         obtain ⟨evs, c', ht, hR', hq', hck⟩ := settleAll_sim 0 s2 _ hR2
         simp only [modelOp, hs1, hs2]
         rw [ht, f8, newEvents_append]
@@ -417,7 +426,7 @@ theorem modelOp_sim {cap hh fins} {s : St M} {c : CkSt} (hR : Rel cap hh fins s 
       simp only [modelOp, hs]
       refine ⟨{ c with live := c.next :: c.live, next := c.next + 1 }, ?_, ?_, ?_⟩
       · simp [ckOp, hmem', ckEvents]; rfl
-      · exact ⟨hreach, hR.acc, hR.ent, by simp [hR.live, hR.next], by simp [hR.next], hR.inside, hR.fin, hR.pan, hR.pend⟩
+      · exact ⟨hreach, hR.acc, hR.ent, by simp [hR.live, hR.next], by simp [hR.next], hR.inside, hR.fin, hR.pan, hR.pend, hR.drp⟩
       · exact workerStep_handles s _ hR.reach (mem_ne_nil hmem) rfl rfl rfl hq
     · have hs : step s (.clone h) = none := by simp [step, hmem]
       have hmem' : h ∉ c.live := by rw [hR.live]; exact hmem
@@ -427,11 +436,12 @@ theorem modelOp_sim {cap hh fins} {s : St M} {c : CkSt} (hR : Rel cap hh fins s 
     by_cases hmem : h ∈ s.handles
     · have hmem' : h ∈ c.live := by rw [hR.live]; exact hmem
       obtain ⟨⟨s1, o⟩, hs⟩ := Option.isSome_iff_exists.mp (drop_enabled s h hmem)
-      obtain ⟨f1, f2, f3, f4, f5, f6, f7, f8⟩ := step_drop_fields hs
+      obtain ⟨f1, f2, f3, f4, f5, f6, f7, f8, f9⟩ := step_drop_fields hs
       have hR1 : Rel cap hh fins s1 { c with live := c.live.erase h } :=
         ⟨Reachable.step hR.reach hs, by rw [f2]; exact hR.acc, by rw [f3]; exact hR.ent,
           by rw [f1]; show c.live.erase h = _; rw [hR.live], by rw [f4]; exact hR.next,
-          by rw [f5]; exact hR.inside, hR.fin, by rw [f6]; exact hR.pan, by rw [f7]; exact hR.pend⟩
+          by rw [f5]; exact hR.inside, hR.fin, by rw [f6]; exact hR.pan, by rw [f7]; exact hR.pend,
+          by rw [f9]; exact hR.drp⟩
       obtain ⟨evs, c', ht, hR', hq', hck⟩ := settleAll_sim 0 s1 _ hR1
       simp only [modelOp, hs]
       rw [ht, f8, newEvents_append]
@@ -537,7 +547,7 @@ theorem settleAll_init (cap : Option Nat) (hh : Bool) :
   rfl
 
 theorem init_rel (cap : Option Nat) (hh : Bool) : Rel cap hh 0 (settleAll (init cap hh)) {} := by
-  refine ⟨settle_reachable _ _ Reachable.init, ?_, ?_, ?_, ?_, ?_, ?_, ?_, ?_⟩ <;>
+  refine ⟨settle_reachable _ _ Reachable.init, ?_, ?_, ?_, ?_, ?_, ?_, ?_, ?_, ?_⟩ <;>
     (try rw [settleAll_init]) <;> rfl
 
 theorem ckOps_accepts_model (cap : Option Nat) (hh : Bool) (ops : List HOp) :
@@ -551,5 +561,100 @@ theorem ckOps_accepts_model (cap : Option Nat) (hh : Bool) (ops : List HOp) :
     rfl
   rw [this]
   exact hst
+
+/-- the step function of `modelFinal`'s fold -/
+def runFold (p : St M × Nat) (op : HOp) : St M × Nat :=
+  let r := modelOp p.1 p.2 op; (r.1, r.2.1)
+
+/-- `go_sim`, also reporting the final pair: the state `modelRun.go` ends in is the state of the fold
+in `modelFinal`, and it is related to the checker state `ckOps` returns, and quiescent -/
+theorem go_final (cap : Option Nat) (hh : Bool) (ops : List HOp) :
+    ∀ (s : St M) (fins : Nat) (c : CkSt) (acc : List HObs), Rel cap hh fins s c → workerStep s = none →
+      ∃ obsl st, modelRun.go s fins ops acc = acc.reverse ++ obsl ∧ ckOps cap hh c ops obsl = .ok st ∧
+        Rel cap hh (ops.foldl runFold (s, fins)).2 (ops.foldl runFold (s, fins)).1 st ∧
+        workerStep (ops.foldl runFold (s, fins)).1 = none := by
+  induction ops with
+  | nil =>
+    intro s fins c acc hR hq
+    exact ⟨[], c, by simp [modelRun.go], rfl, hR, hq⟩
+  | cons op rest ih =>
+    intro s fins c acc hR hq
+    obtain ⟨c', hck, hR', hq'⟩ := modelOp_sim hR hq op
+    obtain ⟨obsl, st, hgo, hst, hRf, hqf⟩ := ih _ _ c' ((modelOp s fins op).2.2 :: acc) hR' hq'
+    refine ⟨(modelOp s fins op).2.2 :: obsl, st, ?_, ?_, hRf, hqf⟩
+    · simp only [modelRun.go]
+      rw [hgo]
+      simp
+    · simp only [ckOps, hck, bind, Except.bind]
+      exact hst
+
+/-- liveness in the quiescent schedule: once no handle is left and the worker is not parked inside the
+wrapped sink, a quiescent state (of a queue that is not a rendezvous channel) has exited, released the
+wrapped sink and handed over every accepted metric -/
+theorem closed_quiescent_done {cap hh} {s : St M} (hr : Reachable cap hh s) (hcap : cap ≠ some 0)
+    (hq : workerStep s = none) (h0 : s.handles = []) (hnr : ∀ m, s.phase ≠ .running m) :
+    s.released = true ∧ s.wrappedLog = s.accepted := by
+  have inv := reachable_inv s hr
+  have hc : s.cap ≠ some 0 := by rw [(reachable_cfg s hr).1]; exact hcap
+  have hdone : s.stopStage = .done := by
+    cases hst : s.stopStage with
+    | idle => exact absurd hst (inv.stopped h0)
+    | flag => simp [workerStep, hst] at hq
+    | pill => simp [workerStep, hst] at hq
+    | done => rfl
+  cases hp : s.phase with
+  | check => simp [workerStep, hdone, hp] at hq
+  | recving =>
+    have hne := inv.noDeadlock hc hdone hp
+    simp [workerStep, hdone, hp, hne] at hq
+  | got m => simp [workerStep, hdone, hp] at hq
+  | running m => exact absurd hp (hnr m)
+  | exited =>
+    refine ⟨?_, exited_all_delivered s hr hp⟩
+    cases hrl : s.released with
+    | true => rfl
+    | false => simp [workerStep, hdone, hp, h0, hrl] at hq
+
+/-- a history is *closed* in the model when, after it, no handle is left and the worker is not parked
+inside the wrapped sink (the harness appends drops and gate openings until this holds) -/
+def closedAfter (cap : Option Nat) (hh : Bool) (ops : List HOp) : Prop :=
+  let s := (modelFinal cap hh ops)
+  s.handles = [] ∧ ∀ m, s.phase ≠ .running m
+
+/-- On closed histories the whole predicate (`ckHistory`: per-operation clauses and the closing clauses
+"every accepted metric was handed over" and "the wrapped sink was dropped") accepts the model's
+observations, for every capacity other than 0 (a zero-capacity channel is a rendezvous channel and is
+outside the liveness claims). -/
+theorem ckHistory_accepts_closed_model (cap : Option Nat) (hh : Bool) (ops : List HOp)
+    (hcap : cap ≠ some 0) (hclosed : closedAfter cap hh ops) :
+    ckHistory cap hh {} ops (modelRun cap hh ops) = .ok () := by
+  obtain ⟨obsl, st, hgo, hst, hR, hq⟩ :=
+    go_final cap hh ops (settleAll (init cap hh)) 0 {} [] (init_rel cap hh) (settleAll_quiescent _)
+  have hrun : modelRun cap hh ops = obsl := by
+    unfold modelRun
+    rw [hgo]
+    rfl
+  obtain ⟨h0, hnr⟩ := hclosed
+  have hfin : modelFinal cap hh ops = (ops.foldl runFold (settleAll (init cap hh), 0)).1 := rfl
+  rw [hfin] at h0 hnr
+  obtain ⟨hrel, hall⟩ := closed_quiescent_done hR.reach hcap hq h0 hnr
+  have hent : ¬ st.entered < st.accepted.length := by rw [hR.ent, hR.acc, hall]; omega
+  have hdrp : st.dropped = true := by rw [hR.drp, hrel]
+  simp only [ckHistory, hrun, hst, bind, Except.bind, ckClose, hent, hdrp]
+  simp
+  rfl
+
+-- non-vacuity: a bounded queue with a handler; two emits (the second waits in the queue while the
+-- first is inside the wrapped sink), the first call fails (handler runs, second call begins), a clone,
+-- the original dropped, the second call returns, the clone dropped: the worker exits and the wrapped
+-- sink is released, so the history is closed
+example : closedAfter (some 1) true
+    [.emit 0 "aa" 1, .emit 0 "bb" 1, .fin (.err 0) 3, .clone 0, .drop 0, .fin .ok 0, .drop 1] := by
+  refine ⟨rfl, ?_⟩
+  intro m h
+  have : (modelFinal (some 1) true
+    [.emit 0 "aa" 1, .emit 0 "bb" 1, .fin (.err 0) 3, .clone 0, .drop 0, .fin .ok 0, .drop 1]).phase = .exited := rfl
+  rw [this] at h
+  cases h
 
 end Queue
